@@ -1,0 +1,15 @@
+//go:build verif
+
+package asm
+
+import "bytes"
+
+// VerifWriteSize exposes the assembler's integer encoder to external verification harnesses.
+func VerifWriteSize(w *bytes.Buffer, n uint32) (int, error) {
+	return writeSize(w, n)
+}
+
+// VerifWriteSym exposes the assembler's string encoder to external verification harnesses.
+func VerifWriteSym(w *bytes.Buffer, s string) (int, error) {
+	return writeSym(w, s)
+}
